@@ -59,7 +59,9 @@ edn_value_t* edn_read_tagged(edn_parser_t* parser) {
     if (value == NULL) {
         parser->depth--;
         if (parser->error == EDN_OK) {
-            parser->error = EDN_ERROR_UNEXPECTED_EOF;
+            /* A closing delimiter where the value should be: the input has not
+             * ended, so this must not read as an unterminated collection */
+            parser->error = EDN_ERROR_INVALID_SYNTAX;
             parser->error_message = "Tagged literal missing value";
             parser->error_start = value_start;
             parser->error_end = parser->current;
